@@ -167,12 +167,12 @@ theorem loop_repaired_stops (n : Nat) : suitesRun .repaired 0 {} (List.replicate
   simp [List.replicate_succ, suitesRun, this]
 
 /-- non-vacuity of `loop_terminates_repaired`: three iterations, each marking a new failure of `U = [1, 2, 3]` -/
-example : SaneAll 0 {} [⟨[⟨false, [⟨1, false, .responds [.fail [1]]⟩]⟩], .failureGroup [1], false⟩,
-                         ⟨[⟨false, [⟨1, false, .responds [.fail [1, 2]]⟩]⟩], .flaky, false⟩,
-                         ⟨[⟨false, [⟨1, false, .responds [.fail [2, 1]]⟩]⟩], .ok, false⟩] ∧
-    suitesRun .repaired 0 {} [⟨[⟨false, [⟨1, false, .responds [.fail [1]]⟩]⟩], .failureGroup [1], false⟩,
-                         ⟨[⟨false, [⟨1, false, .responds [.fail [1, 2]]⟩]⟩], .flaky, false⟩,
-                         ⟨[⟨false, [⟨1, false, .responds [.fail [2, 1]]⟩]⟩], .ok, false⟩] = 3 := by
+example : SaneAll 0 {} [⟨[⟨false, [⟨1, false, .responds [.fail [1]]⟩], false⟩], .failureGroup [1], false⟩,
+                         ⟨[⟨false, [⟨1, false, .responds [.fail [1, 2]]⟩], false⟩], .flaky, false⟩,
+                         ⟨[⟨false, [⟨1, false, .responds [.fail [2, 1]]⟩], false⟩], .ok, false⟩] ∧
+    suitesRun .repaired 0 {} [⟨[⟨false, [⟨1, false, .responds [.fail [1]]⟩], false⟩], .failureGroup [1], false⟩,
+                         ⟨[⟨false, [⟨1, false, .responds [.fail [1, 2]]⟩], false⟩], .flaky, false⟩,
+                         ⟨[⟨false, [⟨1, false, .responds [.fail [2, 1]]⟩], false⟩], .ok, false⟩] = 3 := by
   refine ⟨⟨⟨1, by decide, by decide⟩, fun _ => ⟨trivial, fun _ => ⟨trivial, fun _ => trivial⟩⟩⟩, by decide⟩
 
 end StatefulMachine
